@@ -3834,6 +3834,9 @@ func _stringSet(tokens []Token, baseUrl string) (out pr.SContent, err error) {
 }
 
 func stringSet(tokens []Token, baseUrl string) (pr.CssProperty, error) {
+	if getSingleKeyword(tokens) == "none" {
+		return pr.StringSet{String: "none"}, nil
+	}
 	var out pr.StringSet
 	for _, part := range pa.SplitOnComma(tokens) {
 		result, err := _stringSet(pa.RemoveWhitespace(part), baseUrl)
